@@ -192,6 +192,69 @@ def work(unit):
             if outer == "only" and any(ix not in output for ix in ix_sl):
                 bad.append(("inner-index-chosen-with-allow_outer=only",
                             sorted(ix_sl)))
+            # -- targets given to search() itself override the constructor's
+            if ("target_size" in kw or "target_slices" in kw) and \
+                    "target_overhead" not in kw:
+                loose = {}
+                if "target_size" in kw:
+                    loose["target_size"] = max(kw["target_size"],
+                                               int(base.max_size()))
+                if "target_slices" in kw:
+                    loose["target_slices"] = 1
+                try:
+                    sf2 = SliceFinder(base, temperature=temp,
+                                      minimize=minimize, allow_outer=outer,
+                                      seed=sd_, **loose)
+                    ix2, c2 = sf2.search(reps, **kw)
+                    if "target_size" in kw and c2.size > kw["target_size"]:
+                        bad.append(("search-override-target_size-not-met",
+                                    c2.size, kw["target_size"]))
+                    if "target_slices" in kw and \
+                            c2.nslices < kw["target_slices"]:
+                        bad.append(("search-override-target_slices-not-met",
+                                    c2.nslices, kw["target_slices"]))
+                    st2, mult2, _ = real(ix2)
+                    if c2.size != st2["size"] or \
+                            c2.total_flops * mult0 != st2["flops"]:
+                        bad.append(("search-override-prediction",
+                                    sorted(ix2)))
+                except Exception:
+                    res.stat("search_override_raised")
+            # -- reslicing an already sliced tree (copying and in place)
+            if pre is not None and "target_overhead" not in kw:
+                for inplace in (False, True):
+                    try:
+                        src = base.copy()
+                        t3 = src.slice(temperature=temp, minimize=minimize,
+                                       allow_outer=outer, seed=sd_,
+                                       max_repeats=reps, reslice=True,
+                                       inplace=inplace, **kw)
+                    except Exception:
+                        res.stat("reslice_raised")
+                        continue
+                    if inplace and t3 is not src:
+                        bad.append(("reslice-inplace-returns-other-tree",))
+                    if not inplace and list(src.sliced_inds) != \
+                            list(base.sliced_inds):
+                        bad.append(("reslice-copy-changed-the-original",))
+                    if "target_size" in kw and \
+                            t3.max_size() > kw["target_size"]:
+                        bad.append(("reslice-target_size-not-met",
+                                    inplace, t3.max_size(),
+                                    kw["target_size"]))
+                    if "target_slices" in kw and \
+                            t3.nslices < kw["target_slices"] * mult0:
+                        bad.append(("reslice-target_slices-not-met",
+                                    inplace, t3.nslices,
+                                    kw["target_slices"] * mult0))
+                    rc3 = ref.RefCosts(inputs, output, sd,
+                                       list(t3.sliced_inds))
+                    st3 = t3.contract_stats()
+                    rs3 = rc3.tree_stats(list(t3.traverse()))
+                    if st3["flops"] != rs3["flops"] or \
+                            st3["size"] != rs3["size"]:
+                        bad.append(("reslice-stats-differ-from-reference",
+                                    inplace))
             # -- targets on the really sliced tree
             try:
                 t2 = base.slice(temperature=temp, minimize=minimize,
